@@ -12,7 +12,7 @@ func evSpToExt(t *Tracer, w Win, ids []ID) {
 	real := w.embedSpList(ids)
 	snap := append([]string(nil), real...)
 	o, res := guard(func() (any, error) { return shape.ConvertSpatialIdsToExtendedSpatialIds(real) })
-	e := w.ev("SpToExt", map[string]any{"ids": idsSpArr(ids), "kept": sameStrings(real, snap)})
+	e := w.ev("SpToExt", map[string]any{"ids": idsSpArr(ids), "kept": intact(real, snap)})
 	e.O, e.Real = o, map[string]any{"ids": snap}
 	e.R = []any{}
 	if o != "panic" {
@@ -27,7 +27,7 @@ func evExtToSp(t *Tracer, w Win, ids []ID) {
 	real := w.embedExtList(ids)
 	snap := append([]string(nil), real...)
 	o, res := guard(func() (any, error) { return shape.ConvertExtendedSpatialIdsToSpatialIds(real) })
-	e := w.ev("ExtToSp", map[string]any{"ids": idsArr(ids), "kept": sameStrings(real, snap)})
+	e := w.ev("ExtToSp", map[string]any{"ids": idsArr(ids), "kept": intact(real, snap)})
 	e.O, e.Real = o, map[string]any{"ids": snap}
 	e.R = []any{}
 	if o != "panic" {
